@@ -209,4 +209,30 @@ def HeaderCrypto.decryptClientHeader (e : Exp) (hc : HeaderCrypto) (data : Bytes
     let (h', r) ← hc.decrypt.decryptClientHeader e data
     pure ({ hc with decrypt := h' }, r)
 
+/-! the `Read` / `Write` convenience wrappers of the combined object
+    (vanilla_header/mod.rs, tbc_header/mod.rs: `self.decrypt.read_and_decrypt_…(reader)`,
+    `self.encrypt.write_encrypted_…(write, size, opcode)`): call the half's wrapper, the half (a field,
+    mutated in place) holds its new state afterwards, the `io::Result` is passed through -/
+
+/-- `HeaderCrypto::read_and_decrypt_server_header` -/
+def HeaderCrypto.readServerHeader (e : Exp) (hc : HeaderCrypto) (script : List REv) :
+    Out (IoRes HeaderCrypto (Nat × Nat) (List REv)) := do
+  let r ← hc.decrypt.readServerHeader e script
+  pure ⟨{ hc with decrypt := r.state }, r.result, r.rest⟩
+/-- `HeaderCrypto::read_and_decrypt_client_header` -/
+def HeaderCrypto.readClientHeader (e : Exp) (hc : HeaderCrypto) (script : List REv) :
+    Out (IoRes HeaderCrypto (Nat × Nat) (List REv)) := do
+  let r ← hc.decrypt.readClientHeader e script
+  pure ⟨{ hc with decrypt := r.state }, r.result, r.rest⟩
+/-- `HeaderCrypto::write_encrypted_server_header` -/
+def HeaderCrypto.writeServerHeader (e : Exp) (hc : HeaderCrypto) (size opcode : Nat) (script : List WEv) :
+    Out (IoRes HeaderCrypto Unit Bytes) := do
+  let r ← hc.encrypt.writeServerHeader e size opcode script
+  pure ⟨{ hc with encrypt := r.state }, r.result, r.rest⟩
+/-- `HeaderCrypto::write_encrypted_client_header` -/
+def HeaderCrypto.writeClientHeader (e : Exp) (hc : HeaderCrypto) (size opcode : Nat) (script : List WEv) :
+    Out (IoRes HeaderCrypto Unit Bytes) := do
+  let r ← hc.encrypt.writeClientHeader e size opcode script
+  pure ⟨{ hc with encrypt := r.state }, r.result, r.rest⟩
+
 end WowSrp
